@@ -360,9 +360,16 @@ Definition forb_trip (z : Z) : option nat := Some (Z.to_nat z).
 Definition forb_exec (pe : penv Z) : option (outcome Z) :=
   exec_block Z toy_sem forb_truth forb_trip Z.of_nat 10 [] 3 [forb_stmt] pe.
 
-(* y is live after the loop; the analysis says only y is live before it (not the bound n); two environments that
-   agree on y but not on n run the loop 2 resp. 3 times and end with y = 1 resp. y = 3 *)
+(* which of the two readings of `for` the generated analysis (= analysis.py as it is now) implements: is the loop
+   bound live before the loop?  Decided by computation on the instance below. *)
+Definition for_bound_live : bool :=
+  match live_stmt (fun _ => None) 5 forb_stmt ["y"] with Some li => mem "n" li | None => false end.
+
+(* as read before the repair (bound not live): y is live after the loop; the analysis says only y is live before it
+   (not the bound n); two environments that agree on y but not on n run the loop 2 resp. 3 times and end with y = 1
+   resp. y = 3 *)
 Theorem live_in_sound_for_bound_refuted :
+  for_bound_live = false ->
   exists li o1 o2,
     live_stmt (fun _ => None) 5 forb_stmt ["y"] = Some li /\ ~ In "n" li /\
     (forall x, In x li -> plookup Z forb_pe1 x = plookup Z forb_pe2 x) /\
@@ -372,14 +379,29 @@ Theorem live_in_sound_for_bound_refuted :
     | _, _ => False
     end.
 Proof.
-  eexists. eexists. eexists.
-  split; [vm_compute; reflexivity|].
-  split; [intros [H|[]]; discriminate H|].
-  split; [intros x [H|[]]; subst x; reflexivity|].
-  split; [vm_compute; reflexivity|].
-  split; [vm_compute; reflexivity|].
-  split; reflexivity.
+  intro Hv.
+  first [ vm_compute in Hv; discriminate Hv
+        | eexists; eexists; eexists;
+          split; [vm_compute; reflexivity|];
+          split; [intros [H|[]]; discriminate H|];
+          split; [intros x [H|[]]; subst x; reflexivity|];
+          split; [vm_compute; reflexivity|];
+          split; [vm_compute; reflexivity|];
+          split; reflexivity ].
 Qed.
+
+(* repaired (bound live): for every `for` statement the variables of the bound are live before the loop *)
+Theorem live_in_for_bound_repaired :
+  for_bound_live = true ->
+  forall cic fuel i b body lo L, live_stmt cic fuel (SFor i b body) lo = Some L -> incl (used_vars b) L.
+Proof.
+  intro Hv.
+  first [ vm_compute in Hv; discriminate Hv
+        | intros cic fuel i b body lo L H; cbn [live_stmt] in H; cbv zeta in H;
+          destruct (iterate _ _ _) as [c|]; [|discriminate H]; inversion H; subst L;
+          intros x Hx; apply In_sunion; right; exact Hx ].
+Qed.
+
 
 (* the statement for a class of statements; the unrestricted statement and its refutation by the instance above *)
 Definition live_in_sound_statement (cls : stmt -> Prop) : Prop :=
@@ -419,10 +441,10 @@ Definition live_in_sound_full_statement : Prop :=
         | _, _ => False
         end.
 
-Theorem live_in_sound_full_refuted : ~ live_in_sound_full_statement.
+Theorem live_in_sound_full_refuted : for_bound_live = false -> ~ live_in_sound_full_statement.
 Proof.
-  intros H.
-  destruct live_in_sound_for_bound_refuted as (li & o1 & o2 & Hl & _ & Ha & H1 & H2 & Hd).
+  intros Hv H.
+  destruct (live_in_sound_for_bound_refuted Hv) as (li & o1 & o2 & Hl & _ & Ha & H1 & H2 & Hd).
   destruct (H Z toy_sem forb_truth forb_trip Z.of_nat 10 [] (fun _ => None) 5 [] ltac:(discriminate) ltac:(discriminate)
               3 forb_stmt ["y"] li forb_pe1 forb_pe2 o1 Hl) as (o2' & E2 & R).
   - intros x [Hx|[]]. apply Ha. exact Hx.
